@@ -345,7 +345,7 @@ func init() {
 			defer close(done)
 			rerr = e.co.VerifC11HandleError(ctx, err, []tss.TssProcess{e.proc}, make(chan interface{}, 4))
 		}()
-		return e.second(done, cancel, a[5], c07PeerList(a[6]), 0, 0, &rerr)
+		return e.second(done, cancel, strings.TrimPrefix(a[5], "!"), c07PeerList(a[6]), 0, 0, &rerr)
 	}
 	// exec <self> <t> <sid> <holders> <retryable 0|1> <first: error code | silent> <claimant|-> <arrivals>
 	//   real Execute: the first attempt is brought to a Run that returns the given error (or, `silent`, the static
@@ -540,6 +540,23 @@ func genC11(g *G) {
 		}
 		k := []string{"t" + c07Tok(cul), "c" + c07Tok(cul), "m"}[g.Intn(3)]
 		g.Emit("handle", c07Tok(self), itoa(1+g.Intn(n-1)), sid, joinOr(hs, ","), c11Shapes(k)[g.Intn(5)], c07Tok(claimant), joinOr(hs, ","))
+	}
+	// the excluded culprit itself announces coordination (`!` marks it; known finding C11-bully-unlisted-claimant)
+	for i := 0; i < g.Count(6, 60); i++ {
+		n := 3 + g.Intn(3)
+		hs := c07RandPeers(g, n)
+		sid := c07RandSid(g)
+		ord := c07Order(c07PeerList(joinOr(hs, ",")), c07Sid(sid))
+		cul := ord[g.Intn(n)]
+		var self peer.ID
+		for {
+			self = ord[g.Intn(n)]
+			if self != cul {
+				break
+			}
+		}
+		k := []string{"t" + c07Tok(cul), "c" + c07Tok(cul)}[g.Intn(2)]
+		g.Emit("handle", c07Tok(self), "1", sid, joinOr(hs, ","), c11Shapes(k)[g.Intn(3)], "!"+c07Tok(cul), joinOr(hs, ","))
 	}
 	// random causes / culprit subsets / committees / arrival sequences
 	for i := 0; i < g.Count(120, 4000); i++ {
